@@ -64,11 +64,14 @@ func (h *warnHook) Fire(e *logrus.Entry) error {
 }
 
 var warnSerial sync.Mutex // one case at a time in this process: the hook list of logrus is global
+var warnExec int         // executions in this process: a case that is run again must not meet its own earlier entries
 
 func runWarn(a warnArgs) warnReal {
 	warnSerial.Lock()
 	defer warnSerial.Unlock()
 	logrus.SetOutput(io.Discard)
+	warnExec++
+	a.Tag = fmt.Sprintf("%sx%d/", a.Tag, warnExec)
 	hook := &warnHook{tag: a.Tag}
 	old := logrus.StandardLogger().ReplaceHooks(logrus.LevelHooks{})
 	logrus.AddHook(hook)
